@@ -181,4 +181,32 @@ theorem filter_push_project (f : A → B) (p : B → Bool) (l : List A) :
     (l.map f).filter p = (l.filter (p ∘ f)).map f := by
   rw [List.filter_map]
 
+/-- EXISTS and NOT EXISTS split the outer rows: every outer row is in exactly one of the semi join
+and the anti join (so `NOT EXISTS` may be planned as the complement of `EXISTS` and vice versa). -/
+theorem semi_anti_partition {A B : Type} (on : A → B → Bool) (l : List A) (r : List B) :
+    (semiJoin on l r ++ antiJoin on l r).Perm l ∧
+      (semiJoin on l r).length + (antiJoin on l r).length = l.length := by
+  unfold semiJoin antiJoin
+  constructor
+  · exact List.filter_append_perm _ l
+  · induction l with
+    | nil => simp
+    | cons a as ih =>
+      simp only [List.filter_cons]
+      cases h : r.any (on a) <;> simp [h] <;> omega
+
+/-- An inner join on a condition that is never TRUE is empty, and a semi join against an empty right
+side is empty (constant-FALSE filters short-circuit the plan). -/
+theorem inner_join_false {A B : Type} (l : List A) (r : List B) : innerJoin (fun _ _ => false) l r = [] := by
+  unfold innerJoin
+  induction l with
+  | nil => simp
+  | cons a as ih => simp [List.flatMap_cons, ih]
+
+theorem semi_join_empty_right {A B : Type} (on : A → B → Bool) (l : List A) : semiJoin on l ([] : List B) = [] := by
+  simp [semiJoin]
+
+theorem anti_join_empty_right {A B : Type} (on : A → B → Bool) (l : List A) : antiJoin on l ([] : List B) = l := by
+  simp [antiJoin]
+
 end GlareModel.Props.C02
